@@ -2,11 +2,15 @@ package main
 
 import (
 	"bytes"
+	"context"
 	"encoding/base64"
 	"encoding/binary"
 	"encoding/json"
 	"errors"
 	"fmt"
+	"github.com/lab5e/lospan/pkg/apiserver"
+	"github.com/lab5e/lospan/pkg/keys"
+	"github.com/lab5e/lospan/pkg/pb/lospan"
 	"net"
 	"os"
 	"path/filepath"
@@ -41,6 +45,7 @@ func quietLogs() {
 // gwRig is a real GenericPacketForwarder on a loopback port with client sockets around it.
 type gwRig struct {
 	store   *storage.Storage
+	api     lospan.LospanServer
 	fwd     *gateway.GenericPacketForwarder
 	port    int
 	socks   []*net.UDPConn
@@ -83,6 +88,12 @@ func newGwRigOnce(dir string, checksOff bool, nsock int) (*gwRig, error) {
 	router := server.NewEventRouter[protocol.EUI, gwevents.GwEvent](5)
 	ctx := &server.Context{Storage: st, Config: &server.Parameters{DisableGatewayChecks: checksOff}, GwEventRouter: &router}
 	r := &gwRig{store: st, port: freeUDPPort()}
+	if ma, err := protocol.NewMA([]byte{0, 9, 9}); err == nil {
+		if kg, err := keys.NewEUIKeyGenerator(ma, 0, st); err == nil {
+			devRouter := server.NewEventRouter[protocol.EUI, *server.PayloadMessage](5)
+			r.api, _ = apiserver.New(st, &kg, &devRouter)
+		}
+	}
 	r.fwd = gateway.NewGenericPacketForwarder(r.port, st, ctx)
 	go r.fwd.Start()
 	for i := 0; i < nsock+2; i++ {
@@ -291,6 +302,24 @@ func runGw(c *ctx) error {
 				strict := r.Intn(2) == 0
 				gw := model.Gateway{GatewayEUI: e, IP: net.ParseIP(ip), StrictIP: strict, Latitude: 1, Longitude: 2, Altitude: 3}
 				var err error
+				if registered[string(eui)] && rig.api != nil && r.Intn(3) == 0 {
+					// the management API changes a field that has nothing to do with admission (altitude): what
+					// the forwarder admits for this gateway stays as it was
+					alt := float32(r.Intn(9000))
+					_, err := rig.api.UpdateGateway(context.Background(), &lospan.Gateway{Eui: e.String(), Altitude: &alt})
+					if err != nil {
+						return fmt.Errorf("api.UpdateGateway of a registered gateway failed: %v", err)
+					}
+					c.res.Count("gw.api-update-other-field")
+					leanReqs = append(leanReqs, "gw.refused "+hx.H(eui))
+					impl = append(impl, "ok")
+					ops = append(ops, gwOp{Op: "api-update-altitude", Lean: leanReqs[len(leanReqs)-1], Note: "UpdateGateway through the service implementation with only the altitude set"})
+					forced = append(forced, forcedPush{eui, r.Intn(6), false})
+					if len(rig.socks) > 6 {
+						forced = append(forced, forcedPush{eui, 6 + r.Intn(len(rig.socks)-6), false})
+					}
+					continue
+				}
 				if r.Intn(4) == 0 {
 					// a registry call that must be refused (update of a gateway that is not registered,
 					// second create of one that is): the registry - and what the forwarder admits - stays as it was
@@ -341,6 +370,9 @@ func runGw(c *ctx) error {
 			case op < 9: // datagram
 				ver := byte(r.Intn(4))
 				tok := uint16(r.Intn(65536))
+				if r.Intn(6) == 0 {
+					tok = []uint16{0, 0, 1, 0xffff, 0x00ff, 0xff00}[r.Intn(6)] // boundary tokens (0x0000 is a token like any other)
+				}
 				if d := tok - rig.barrier; d <= 8 {
 					tok += 1000 // the acknowledgement carries only the token: keep clear of the barrier's tokens
 				}
